@@ -141,6 +141,26 @@ def star_path(path):
     return join_path(path)
 
 
+_json_number_types = (bool, int, float)
+
+def json_equal(x, y):
+    """Whether two JSON values are equal.
+
+    Unlike ``==`` this keeps booleans, integers and floats apart (in Python
+    ``True == 1 == 1.0``), as they are different values once serialized.
+    """
+    if isinstance(x, _json_number_types) or isinstance(y, _json_number_types):
+        return type(x) is type(y) and x == y
+    if x != y:
+        return False
+    # Equal according to python, check that nested values agree on number types
+    if isinstance(x, dict) and isinstance(y, dict):
+        return all(json_equal(v, y[k]) for k, v in x.items())
+    if isinstance(x, (list, tuple)) and isinstance(y, (list, tuple)):
+        return all(json_equal(v, w) for v, w in zip(x, y))
+    return True
+
+
 def resolve_path(obj, path):
     for p in path:
         obj = obj[p]
